@@ -170,6 +170,17 @@ def digest(bs):
 
 
 def make_frame(cls_, id_):
+    """a frame of a class the library has no class for, as an application writes it: the class/id a class constant, or set on the
+    instance by a generic frame class (which one: by the class/id)"""
+    if (cls_ * 7 + id_) % 3 == 0:
+        class G(UbxFrame):
+            NAME = 'GENERIC'
+
+            def __init__(self):
+                super().__init__()
+                self.CID = UbxCID(cls_, id_)
+        return G()
+
     class F(UbxFrame):
         CID = UbxCID(cls_, id_)
     return F()
@@ -387,6 +398,18 @@ def gen_frame(rng, n, profile):
         return
     lens = list(range(0, 300)) + [510, 511, 512, 513, 999, 1000, 1001, 4095, 4096]
     if not profile.startswith('all-lengths'):
+        # a payload that is itself a complete message: of the same class/id (a message replayed from a capture, an earlier
+        # to_bytes() output), of another class/id, with one bit of it wrong, twice nested
+        for _ in range(6):
+            c, i = rng.randrange(256), rng.randrange(256)
+            inner = wire_frame(c, i, bytes(rng.randrange(256) for _ in range(rng.choice([0, 1, 4, 20]))))
+            yield f'frame|{c}|{i}|{inner.hex()}'
+            yield f'frame|{c}|{i}|{wire_frame(c, i, inner).hex()}'
+            yield f'frame|{c}|{(i + 1) % 256}|{inner.hex()}'
+            broken = bytearray(inner)
+            broken[-1] ^= 1
+            yield f'frame|{c}|{i}|{bytes(broken).hex()}'
+            yield f'frameseq|{c}|{i}|N:{inner.hex()};I:{inner.hex()};N:;N:{inner.hex()}'
         for ln in (0, 1, 2, 7, 30, 200):
             for at in sorted({1, 5, 12, 20, 27, 35, 7 * ln // 2 + 20, 7 * ln, 7 * ln + 22, 7 * ln + 30, 7 * ln + 36}):
                 pl = bytes(rng.randrange(256) for _ in range(ln))
@@ -467,9 +490,30 @@ def real_ckil(line):
     return ' '.join(out)
 
 
+def real_ckobs(line):
+    """ckobs|<hex>|<n>: the bytes added one by one, and at the n-th line executed inside the package somebody LOOKS at the same
+    object - value(), matches(): pure questions (a debugger's watch expression, a status thread) - then value() as usual"""
+    _, h, at = line.split('|')
+    c = Checksum()
+    data = bytes.fromhex(h)
+
+    def feed():
+        for x in data:
+            c.add(x)
+
+    def look():
+        c.value()
+        c.matches(1, 2)
+    realenv.interleaved(feed, int(at), look)
+    va, vb = c.value()
+    return f'{va},{vb} {"true" if c.matches(va, vb) else "false"}'
+
+
 def real_ck(line):
     p = line.split('|')
     try:
+        if p[0] == 'ckobs':
+            return real_ckobs(line)
         if p[0] == 'ckil':
             return real_ckil(line)
         if p[0] == 'ck':
@@ -548,6 +592,11 @@ def oracles_ck(line, real_out):
     if p[0] == 'ckgen':
         return [], [{'line': 'ckgen|' + '|'.join(p[1:]), 'expect': real_out, 'prop': 'C15',
                      'what': 'CK_A / CK_B are the sums mod 256 for every byte sequence, however long; after reset() the object is as new'}]
+    if p[0] == 'ckobs':
+        va, vb = fletcher(bytes.fromhex(p[1]))
+        exp = f'{va},{vb} true'
+        return [{'prop': 'C15', 'ok': real_out == exp, 'expected': exp, 'observed': real_out,
+                 'what': 'the result depends only on the byte sequence - not on whether somebody looked at the object (value(), matches()) in the middle of an add()'}], []
     if p[0] == 'ckseq':
         return [], [{'line': 'ck|' + p[1], 'expect': real_out.split(' ')[0], 'prop': 'C15',
                      'what': 'CK_A = sum of the bytes mod 256, CK_B = sum of the successive CK_A values mod 256, from (0,0)'}]
@@ -580,6 +629,8 @@ def gen_ck(rng, n, profile):
             yield f'ckm|{a}|{b}'
     for _ in range(16 if not profile.startswith('all-states') else 64):
         yield f'ckm|{rng.randrange(256)}|{rng.randrange(256)}'
+    for at in range(1, 26):
+        yield f'ckobs|{bytes(rng.randrange(1, 256) for _ in range(6)).hex()}|{at}'
     # several objects alive at once, fed in turns
     for _ in range(30):
         ops, nobj = ['N'], 1
@@ -661,8 +712,36 @@ def model_line_fields(line):
     return '|'.join(['fields'] + p[1:3]) if p[0] == 'fieldsobs' else line
 
 
+def describe_frame(f):
+    dec = ','.join(f'{it.name}={show(it.value)}' for it in ordered_items(f) if not isinstance(it, Padding))
+    try:
+        f.pack()
+        return dec + ' pack=' + bytes(f.data).hex()
+    except Exception as e:
+        return dec + ' pack=EXC:' + exc_name(e)
+
+
+def real_fieldscopy(line):
+    """fieldscopy|<Class>|<payload 1>|<payload 2>|<how>: a decoded frame is copied (deepcopy / a pickle round trip), ANOTHER payload is
+    decoded through the copy; the copy holds the second payload's values, the original still the first's"""
+    _, name, h1, h2, how = line.split('|')
+    cls = find_class(name)
+    try:
+        f = cls.construct(bytearray(bytes.fromhex(h1)))
+        if int(how) & 2:
+            f.pack()
+        g = copy.deepcopy(f) if int(how) & 1 == 0 else pickle.loads(pickle.dumps(f))
+        g.data = bytearray(bytes.fromhex(h2))
+        g.unpack()
+        return describe_frame(g) + ' ## ' + describe_frame(f)
+    except Exception as e:
+        return 'EXC:' + exc_name(e)
+
+
 def real_fields(line):
     parts = line.split('|')
+    if parts[0] == 'fieldscopy':
+        return real_fieldscopy(line)
     name, h = parts[1], parts[2]
     pl = bytes.fromhex(h)
     given = bytearray(pl)
@@ -723,6 +802,15 @@ def api_values(name, pl, spec_names=None):
 
 
 def oracles_fields(line, real_out):
+    if line.startswith('fieldscopy|'):
+        _, name, h1, h2, how = line.split('|')
+        recs, spec = [], []
+        outs = real_out.split(' ## ')
+        for h, o in zip((h2, h1), outs + ['missing', 'missing']):
+            r, sp = oracles_fields(f'fields|{name}|{h}', o)
+            recs += [dict(x, what=x['what'] + ' (a frame and its copy: each holds what was decoded through it)') for x in r if x['prop'] != 'C07' or 'another' not in x['what']]
+            spec += [dict(x, what=x['what'] + ' (a frame and its copy: each holds what was decoded through it)') for x in sp]
+        return recs, spec
     _, name, h = model_line_fields(line).split('|')
     pl = bytes.fromhex(h)
     if not wellformed(name, pl):
@@ -784,6 +872,10 @@ def gen_fields(rng, n, profile):
                 yield f'fields|{name}|' + bytes(pl).hex()
         for _ in range(n):
             yield f'fields|{name}|' + payload_for(rng, name).hex()
+        for how in range(4):
+            pl, pl2 = payload_for(rng, name), payload_for(rng, name)
+            if wellformed(name, pl) and wellformed(name, pl2):
+                yield f'fieldscopy|{name}|{pl.hex()}|{pl2.hex()}|{how}'
         for at in (1, 30, 80, 150, 230, 320, 400, 480, 550, 620, 700, 780, 850, 920, 970, 999):
             pl = payload_for(rng, name)
             if wellformed(name, pl):
@@ -1123,13 +1215,17 @@ def real_keytab(line):
     G<hex> decode a VALGET payload.  The table is put back as it was afterwards."""
     from ubxlib.cfgkeys import KeyInfo
     from ubxlib.ubx_cfg_valget import UbxCfgValGet
-    saved = dict(UbxKeyId.KEY_INFO)
+    saved_obj, saved = UbxKeyId.KEY_INFO, dict(UbxKeyId.KEY_INFO)
     out = []
     try:
         for op in line.split('|', 1)[1].split(';'):
             try:
-                if op[0] == 'T':
+                if op[0] in 'TW':
                     k, v = op[1:].split(':')
+                    if op[0] == 'W':
+                        # the same change made by installing a NEW table (KEY_INFO = {**KEY_INFO, …}; mock.patch.object) instead of
+                        # editing the shipped dict in place
+                        UbxKeyId.KEY_INFO = dict(UbxKeyId.KEY_INFO)
                     if v == '-':
                         UbxKeyId.KEY_INFO.pop(int(k), None)
                     else:
@@ -1153,8 +1249,9 @@ def real_keytab(line):
             except Exception as e:
                 out.append('EXC:' + exc_name(e))
     finally:
-        UbxKeyId.KEY_INFO.clear()
-        UbxKeyId.KEY_INFO.update(saved)
+        UbxKeyId.KEY_INFO = saved_obj
+        saved_obj.clear()
+        saved_obj.update(saved)
     return ' '.join(out)
 
 
@@ -1165,7 +1262,7 @@ def oracles_keytab(line, real_out):
     outs = real_out.split(' ')
     j, bad = 0, None
     for op in line.split('|', 1)[1].split(';'):
-        if op[0] == 'T':
+        if op[0] in 'TW':
             k, v = op[1:].split(':')
             if v == '-':
                 table.pop(int(k), None)
@@ -1387,7 +1484,7 @@ def gen_keytab(rng, n):
             bits = {1: 1, 2: 8, 3: 16, 4: 32, 5: 64}[(k >> 28) & 7]
             u = rng.random()
             if u < .35:
-                ops.append(f'T{k}:{rng.choice(["1", "1", "0", "-"])}')
+                ops.append(f'{rng.choice("TTW")}{k}:{rng.choice(["1", "1", "0", "-"])}')
             elif u < .7:
                 val = bytes([rng.choice([0, 1])]) if bits == 1 else bytes(rng.choice([0xff, 0x80, 0xce, 0, rng.randrange(256)]) for _ in range(WIDTH[bits]))
                 ops.append('U' + (struct.pack('<I', k) + val).hex())
@@ -1524,6 +1621,26 @@ def real_valset(line):
             f = UbxCfgValSetAction([objs[int(k)] for k in p[3].split(',')])
             f.pack()
             return bytes(f.data).hex()
+        if p[0] == 'valsetfrom':
+            # a VALSET built from items TAKEN OUT of a decoded VALGET response (d<k>), in any order, mixed with new ones (n<spec>) - the
+            # read-modify-write of the generation-9 receivers; both frames are rendered afterwards
+            res = UbxCfgValGet.construct(bytearray(bytes.fromhex(p[1])))
+            got = [it for it in ordered_items(res) if isinstance(it, CfgKeyData)]
+            chosen = []
+            for e in p[2].split(';'):
+                if e[0] == 'd':
+                    chosen.append(got[int(e[1:])])
+                else:
+                    g, i, b, sg, v = parse_items(e[1:])[0]
+                    chosen.append(CfgKeyData('x', g, i, b, v, sg))
+            f = UbxCfgValSetAction(chosen)
+            f.pack()
+            if len(p) > 3 and p[3] == 'render':          # (asked by the oracle of C19)
+                try:
+                    return 'ok' if str(f) and str(res) else 'empty'
+                except Exception as e:
+                    return 'EXC:' + exc_name(e)
+            return bytes(f.data).hex()
         if p[0] == 'valgetpoll':
             f = UbxCfgValGetPoll([int(k) for k in p[1].split(',')])
             f.pack()
@@ -1577,12 +1694,26 @@ def model_line_valset(line):
     if p[0] == 'valsetreuse':
         specs = p[1].split(';')
         return 'valset|' + ';'.join(specs[int(k)] for k in p[3].split(','))
+    if p[0] == 'valsetfrom':
+        # what the decoded items are is said by the reference decoder
+        data, items = bytes.fromhex(p[1])[4:], []
+        while len(data) >= 4:
+            r = ref_unpack(data)
+            if r is None:
+                return 'valget|' + p[1]             # (a payload that does not decode: both sides say so)
+            items.append(','.join(str(int(x)) for x in r[0]))
+            data = data[r[1]:]
+        return 'valset|' + ';'.join(items[int(e[1:])] if e[0] == 'd' else e[1:] for e in p[2].split(';'))
     return line
 
 
 def oracles_valset(line, real_out):
     p = model_line_valset(line).split('|')
     recs = []
+    if line.startswith('valsetfrom|'):
+        rendered = real_valset(line + '|render')
+        recs.append({'prop': 'C19', 'ok': rendered == 'ok', 'expected': 'ok', 'observed': rendered,
+                     'what': 'str() of a frame returns text without raising - also of a VALGET response some of whose items were handed on to a VALSET'})
     if p[0] == 'valset':
         items = parse_items(p[1])
         parts, bad = [], False
@@ -1594,8 +1725,9 @@ def oracles_valset(line, real_out):
             key = (SIZE_CODE[b] << 28) | (g << 16) | i
             parts.append(struct.pack('<I', key) + (bytes([1 if v else 0]) if b == 1 else (v % (1 << b)).to_bytes(b // 8, 'little')))
         exp = 'EXC:ValueError' if bad else (bytes([0, 1, 0, 0]) + b''.join(parts)).hex()
-        recs.append({'prop': 'C14', 'ok': real_out == exp, 'expected': exp[:300], 'observed': real_out[:300],
-                     'what': 'a VALSET payload is the 4-byte header followed by the items in the order given'})
+        for q in ('C14', 'C08'):
+            recs.append({'prop': q, 'ok': real_out == exp, 'expected': exp[:300], 'observed': real_out[:300],
+                         'what': 'a VALSET payload is the 4-byte header followed by the items in the order given'})
     elif p[0] == 'valgetpoll':
         ks = [int(k) for k in p[1].split(',')]
         if all(0 <= k < 1 << 32 for k in ks):
@@ -1681,6 +1813,17 @@ def gen_valset(rng, n, profile):
         sel1 = rng.sample(range(cnt), rng.randrange(1, cnt + 1))
         sel2 = rng.sample(range(cnt), rng.randrange(1, cnt + 1))
         yield 'valsetreuse|' + ';'.join(items) + '|' + ','.join(map(str, sel1)) + '|' + ','.join(map(str, sel2))
+    for _ in range(max(6, n // 6)):
+        npairs = rng.choice([2, 3, 4, 6])
+        pl = bytearray([1, 0, 0, 0])
+        for _ in range(npairs):
+            key = rng.choice(keys) if rng.random() < .6 else (rng.choice([1, 2, 3, 4, 5]) << 28 | rng.randrange(256) << 16 | rng.randrange(4096))
+            bits = {1: 1, 2: 8, 3: 16, 4: 32, 5: 64}[(key >> 28) & 7]
+            pl += struct.pack('<I', key) + (bytes([rng.choice([0, 1])]) if bits == 1 else bytes(rng.randrange(128) for _ in range(WIDTH[bits])))
+        sel = [f'd{k}' for k in rng.sample(range(npairs), rng.randrange(1, npairs + 1))]
+        for _ in range(rng.choice([0, 1, 2])):
+            sel.insert(rng.randrange(len(sel) + 1), 'n' + item())
+        yield 'valsetfrom|' + bytes(pl).hex() + '|' + ';'.join(sel)
     for _ in range(n // 2):
         ks = [rng.choice(keys) if rng.random() < .7 else rng.randrange(1 << 32) for _ in range(rng.choice([1, 2, 5, 64]))]
         yield 'valgetpoll|' + ','.join(map(str, ks))
@@ -1728,7 +1871,7 @@ def real_gnss(line):
         if prepack:                 # the frame has been encoded (sent) once before the helper is used
             f.pack()
             f.to_bytes()
-        {'enable': lambda: f.enable_gnss(int(sysn)), 'disable': lambda: f.disable_gnss(int(sysn)),
+        {'enable': lambda: styled(line, f.enable_gnss, ['system'], int(sysn)), 'disable': lambda: styled(line, f.disable_gnss, ['system'], int(sysn)),
          'gps_glonass': f.gps_glonass, 'gps_galileo_beidou': f.gps_galileo_beidou}[op]()
         f.pack()
         d = bytes(f.data)
@@ -1783,6 +1926,17 @@ def gen_gnss(rng, n, profile):
         yield f'gnss|{op}|{rng.randrange(8)}|{bl}' + rng.choice(['', '', '|P'])
 
 
+def styled(line, method, names, *args):
+    """the call written the way a caller may write it - positional, or by the parameter names the library documents (the pinned
+    signatures: a rename is an incompatible change), or mixed - chosen by the line"""
+    k = zlib.crc32(line.encode()) % 3
+    if k == 0 or not args:
+        return method(*args)
+    if k == 1:
+        return method(**dict(zip(names, args)))
+    return method(args[0], **dict(zip(names[1:], args[1:])))
+
+
 def start_frame(cls, init):
     """a fresh frame, or one decoded from a payload (a frame that was used before / came from the receiver)"""
     return cls() if init in ('', '-') else cls.construct(bytearray(bytes.fromhex(init)))
@@ -1817,11 +1971,11 @@ def real_helper(line):
                 k = zlib.crc32(line.encode()) % 3
                 f.set_rate_in_hz(a / b if k == 0 else fractions.Fraction(a, b) if k == 1 else decimal.Decimal(a) / decimal.Decimal(b))
             else:
-                f.set_rate_in_hz(dress(int(p[2]), line))
+                styled(line, f.set_rate_in_hz, ['rate'], dress(int(p[2]), line))
         elif p[1] in ('save', 'reset'):
             from ubxlib.ubx_cfg_cfg import UbxCfgCfgAction
             f = start_frame(UbxCfgCfgAction, p[3] if len(p) > 3 else '-')
-            getattr(f, p[1])(int(p[2]))
+            styled(line, getattr(f, p[1]), ['settings'], int(p[2]))
         elif p[1] == 'rst':
             from ubxlib.ubx_cfg_rst import UbxCfgRstAction
             f = start_frame(UbxCfgRstAction, p[3] if len(p) > 3 else '-')
@@ -1833,11 +1987,11 @@ def real_helper(line):
         elif p[1] == 'esflaset':
             from ubxlib.ubx_cfg_esfla import UbxCfgEsflaSet
             f = start_frame(UbxCfgEsflaSet, p[6] if len(p) > 6 else '-')
-            f.set(*map(int, p[2:6]))
+            styled(line, f.set, ['lever_arm_type', 'x', 'y', 'z'], *map(int, p[2:6]))
         elif p[1] == 'utc':
             from ubxlib.ubx_mga_ini_time_utc import UbxMgaIniTimeUtc
             f = start_frame(UbxMgaIniTimeUtc, p[8] if len(p) > 8 else '-')
-            f.set_datetime(datetime.datetime(*map(int, p[2:8])))
+            styled(line, f.set_datetime, ['dt'], datetime.datetime(*map(int, p[2:8])))
         elif p[1] == 'leverarm':
             from ubxlib.ubx_cfg_esfla import UbxCfgEsfla
             f = UbxCfgEsfla.construct(bytearray(bytes.fromhex(p[3])))
@@ -1845,7 +1999,7 @@ def real_helper(line):
             if mode.startswith('edited:'):                  # a field is assigned after decoding: the query is about the frame as it is now
                 _, k, v = mode.split(':')
                 setattr(f.f, f'leverArmX_{k}', int(v))
-            r = f.lever_arm(int(p[2]))
+            r = styled(line, f.lever_arm, ['armType'], int(p[2]))
             if mode == 'again' and r is not None:
                 # what a query returns is the caller's: scribbling on it (unit conversion in place …) and asking for other
                 # types in between must not change what the next query says about the unchanged frame
@@ -2084,7 +2238,8 @@ def gen_render(rng, n, profile):
 
 COMPONENTS = {
     'frame': {'real': real_frame, 'oracles': oracles_frame, 'gen': gen_frame, 'model_line': model_line_frame},
-    'ck': {'real': real_ck, 'oracles': oracles_ck, 'gen': gen_ck},
+    'ck': {'real': real_ck, 'oracles': oracles_ck, 'gen': gen_ck,
+           'model_line': lambda line: 'ckseq|' + line.split('|')[1] if line.startswith('ckobs|') else line},
     'fields': {'real': real_fields, 'oracles': oracles_fields, 'gen': gen_fields, 'model_line': model_line_fields},
     'ch': {'real': real_ch, 'oracles': oracles_ch, 'gen': gen_ch},
     'subitem': {'real': real_subitem, 'oracles': oracles_subitem, 'gen': gen_subitem},
